@@ -77,6 +77,8 @@ def build(rec_, R):
             attrs = {}
             if t == 'N':
                 attrs['unique'] = False
+                if rec_.get('_nonreord'):
+                    attrs['reorderable'] = False     # Onion.tla consults `reorderable` only for unique types
             if t == 'X':
                 attrs['reorderable'] = False
             base = Middleware
@@ -224,12 +226,12 @@ def build(rec_, R):
     return app, '/sub/x'
 
 
-def run_one(rec_, direct=False, share=False, http_exc=False, resp_kind=0, provides=False, related=False, sibling=False):
+def run_one(rec_, direct=False, share=False, http_exc=False, resp_kind=0, provides=False, related=False, sibling=False, nonreord=False):
     from werkzeug.test import Client
     from werkzeug.wrappers import BaseResponse
     R = Rec()
     rec_ = dict(rec_, _direct=direct, _share=share, _http_exc=http_exc, _resp_kind=resp_kind, _provides=provides, _related=related,
-                _sibling=sibling)
+                _sibling=sibling, _nonreord=nonreord)
     try:
         app, path = build(rec_, R)
     except Exception as e:  # noqa  (the configuration is inside the model: construction must succeed)
@@ -302,9 +304,9 @@ def check(run):
         exp = expected_events(b)
         direct = (n % 2 == 0)
         share, http_exc, resp_kind, provides = (n % 3 == 1), (n % 4 >= 2), (n // 2) % 3, (n % 5 < 2)
-        related, sibling = (n % 2 == 1), (n % 3 != 0)
+        related, sibling, nonreord = (n % 2 == 1), (n % 3 != 0), (n % 4 < 2)
         obs, status = run_one(b, direct=direct, share=share, http_exc=http_exc, resp_kind=resp_kind, provides=provides,
-                              related=related, sibling=sibling)
+                              related=related, sibling=sibling, nonreord=nonreord)
         run.evaluations += 1
         if len(b['chain']) >= 2 or b['plan']['k'] != 'none':
             run.nontrivial.add(key)
@@ -317,7 +319,7 @@ def check(run):
             run.violation(classify(exp, obs, k, a, bb),
                           'event %d: spec %r, implementation %r (plan %r)' % (k, a, bb, b['plan']),
                           {'leg': 'L2', 'behaviour': b, 'observed': obs, 'direct': direct, 'share': share, 'http_exc': http_exc, 'resp_kind': resp_kind, 'provides': provides,
-                           'related': related, 'sibling': sibling, 'first_diff': [k, a, bb]})
+                           'related': related, 'sibling': sibling, 'nonreord': nonreord, 'first_diff': [k, a, bb]})
         else:
             run.violation('final-status', 'final value %r but status %s' % (b['final'], status),
                           {'leg': 'L2', 'behaviour': b, 'observed': obs, 'direct': direct})
@@ -332,7 +334,7 @@ def replay(run, path):
     c = rp['case']
     obs, status = run_one(c['behaviour'], direct=c.get('direct', False), share=c.get('share', False), http_exc=c.get('http_exc', False),
                           resp_kind=c.get('resp_kind', 0), provides=c.get('provides', False), related=c.get('related', False),
-                          sibling=c.get('sibling', False))
+                          sibling=c.get('sibling', False), nonreord=c.get('nonreord', False))
     exp = expected_events(c['behaviour'])
     d = first_diff(exp, obs)
     print('expected:', exp)
